@@ -400,6 +400,60 @@ def solver_use(ctx):
     return first
 
 
+def solver_values(ctx):
+    """the vector potential the SOLVER works with, at construction and at every update, is the pointwise combination of
+    the operands: composite versus one flat Parameter computing the same expression from the plain functions"""
+    from tdgl.solver.solver import TDGLSolver
+
+    dev = zoo.make_device("ring", ctx.rng, max_edge_length=1.0)
+    A = Parameter(vector_leaf, B=0.3)
+    A2 = Parameter(vector_leaf, B=0.11)
+    R = Parameter(ramp, rate=2.0, time_dependent=True)
+    v = lambda x, y, z, B: vector_leaf(x, y, z, B=B)
+    r = lambda t: ramp(0, 0, 0, t=t, rate=2.0)
+    shapes = {
+        # (composite, the same expression written out)
+        "PT*P": (lambda: R * A, lambda x, y, z, t: r(t) * v(x, y, z, 0.3)),
+        "P*PT": (lambda: A * R, lambda x, y, z, t: v(x, y, z, 0.3) * r(t)),
+        "P-PT*P": (lambda: A - R * A2, lambda x, y, z, t: v(x, y, z, 0.3) - r(t) * v(x, y, z, 0.11)),
+        "PT*P-P": (lambda: R * A2 - A, lambda x, y, z, t: r(t) * v(x, y, z, 0.11) - v(x, y, z, 0.3)),
+        "P-PT": (lambda: A - R, lambda x, y, z, t: v(x, y, z, 0.3) - r(t)),
+        "PT-P": (lambda: R - A, lambda x, y, z, t: r(t) - v(x, y, z, 0.3)),
+        "P/(PT+num)": (lambda: A / (R + 0.5), lambda x, y, z, t: v(x, y, z, 0.3) / (r(t) + 0.5)),
+        "(PT+num)/(P+num)": (lambda: (R + 0.5) / (A + 2.0), lambda x, y, z, t: (r(t) + 0.5) / (v(x, y, z, 0.3) + 2.0)),
+        "(P+num)**(PT+num)": (lambda: (A + 2.0) ** (R + 1.0), lambda x, y, z, t: (v(x, y, z, 0.3) + 2.0) ** (r(t) + 1.0)),
+        "(PT+num)**(P+num)": (lambda: (R + 1.0) ** (A + 2.0), lambda x, y, z, t: (r(t) + 1.0) ** (v(x, y, z, 0.3) + 2.0)),
+        "P+PT*P": (lambda: A + R * A2, lambda x, y, z, t: v(x, y, z, 0.3) + r(t) * v(x, y, z, 0.11)),
+        "num*(P-PT*P)": (lambda: 2.0 * (A - R * A2), lambda x, y, z, t: 2.0 * (v(x, y, z, 0.3) - r(t) * v(x, y, z, 0.11))),
+    }
+    first = None
+    opts = runs.options(solve_time=0.03, dt_init=1e-2, save_every=2)
+    for name, (mk, flat) in shapes.items():
+        def flat_fn(x, y, z, *, t, _f=flat):
+            return _f(x, y, z, t)
+
+        try:
+            sc = TDGLSolver(dev, opts, applied_vector_potential=mk())
+            sf = TDGLSolver(dev, opts, applied_vector_potential=Parameter(flat_fn, time_dependent=True))
+            pairs = [("construction", np.asarray(sc.current_A_applied), np.asarray(sf.current_A_applied))]
+            for t in (0.0, 0.05, 0.2, 0.31, 0.9):
+                pairs.append((f"update(t={t})", np.asarray(sc.update_applied_vector_potential(t)), np.asarray(sf.update_applied_vector_potential(t))))
+        except Exception as e:  # noqa
+            rp = dict(shape=name, error=f"{type(e).__name__}: {str(e)[:120]}")
+            ctx.fail(f"solver-values:{type(e).__name__}", f"a solver for applied_vector_potential = {name} raised {rp['error']}", rp)
+            first = first or dict(key=f"solver-values:{type(e).__name__}", what=rp["error"], **rp)
+            continue
+        for where, got, want in pairs:
+            ctx.case(("solver-values", name, where), nontrivial=bool(np.any(want)))
+            ctx.count("solver_value_comparisons")
+            if got.shape != want.shape or not np.allclose(got, want, rtol=1e-12, atol=1e-15, equal_nan=True):
+                rp = dict(shape=name, where=where, max_diff=(float(np.nanmax(np.abs(got - want))) if got.shape == want.shape else None))
+                ctx.fail("solver-values", f"the solver's vector potential for {name} at {where} is not the pointwise combination of the operands (max diff {rp['max_diff']})", rp)
+                first = first or dict(key="solver-values", what=f"{name} {where}", **rp)
+                break
+    return first
+
+
 def all_trees(quick, rng):
     ts = [t for d in (0, 1, 2) for t in trees(d)]
     # depth 3: 5 * (|depth<=2|^2) trees is ~3.5e10 — sampled (the theorems cover every depth); the sample is
@@ -507,6 +561,8 @@ def run(ctx, stop_first=False, with_model=True):
     first = first or f
     f = solver_use(ctx)
     first = first or f
+    f = solver_values(ctx)
+    first = first or f
     if with_model and os.environ.get('C16_NOMODEL') != '1':
         model_correspondence(ctx, built)
     if len(ctx.samples) < 4:
@@ -556,7 +612,7 @@ def replay(payload):
     ctx = V.Ctx("C16", "quick", int(payload.get("seed", 0)))
     try:
         if "shape" in payload:
-            return solver_use(ctx) is None
+            return solver_use(ctx) is None and solver_values(ctx) is None
         for t in all_trees(True, ctx.rng):
             if buildable(t) and show(t) == payload.get("tree"):
                 return check_tree(ctx, t) is None
